@@ -113,6 +113,21 @@ def generate(rng, tier, seed):
         if d.ok and d.value == pin:
             c.fail("format 0 block decoded to the original PIN with a PAN whose bound digits differ")
         yield c
+    # PANs with leading zeros: shifting the digits must change the PAN field (the field is injective on PANs of 13+ digits)
+    for _ in range(40 * reps):
+        n = rng.randrange(13, 20)
+        pan = "0" * rng.randrange(1, 3) + digits(rng, n)
+        pan = pan[:n]
+        pan2 = pan.lstrip("0").ljust(n, "0") if pan.lstrip("0") else pan
+        pin, key = digits(rng, rng.randrange(4, 13)), rb(rng, rng.choice((16, 24, 32)))
+        c = Case("pan-binding:format4-leading-zero", {"pan_len": n})
+        e4 = c.call("pinblock.encipher_pinblock_iso_4", key, pin, pan, with_entropy=True)
+        c.call("pinblock.encode_pan_field_iso_4", pan)
+        if pan2 != pan:
+            d = c.call("pinblock.decipher_pinblock_iso_4", key, e4.value, pan2)
+            if d.ok and d.value == pin:
+                c.fail(f"format 4 block for PAN {pan} deciphers to the original PIN under the different PAN {pan2}")
+        yield c
     for _ in range(60 * reps):
         pin, pan, key = digits(rng, rng.randrange(4, 13)), digits(rng, rng.randrange(1, 20)), rb(rng, rng.choice((16, 24, 32)))
         pos = rng.randrange(len(pan))
